@@ -43,6 +43,7 @@ func runC02(c *ctx, cfg c02cfg, seed int64) rTrace {
 	var mu sync.Mutex
 	add := func(e rEv) { mu.Lock(); tr.Ev = append(tr.Ev, e); mu.Unlock() }
 	s := sched.New()
+	s.WatchForeign = true // the pool's stopper goroutine announces itself only after it has been woken
 	s.Namer = func(point string, who any, seq int) string {
 		switch point {
 		case "tp.w.started":
